@@ -15,7 +15,7 @@ POOL = {"int": INTS, "dec": DECS, "word": WORDS, "flag": FLAGS}
 
 
 @st.composite
-def tables(draw, min_rows=1, max_rows=9, blanks=True, ragged=True, lead_blank=False, extra=True):
+def tables(draw, min_rows=1, max_rows=9, blanks=True, ragged=True, lead_blank=False, extra=True, pad=True):
     ncols = draw(st.integers(1, 4))
     names = draw(st.lists(st.sampled_from(COLNAMES), min_size=ncols, max_size=ncols, unique=True))
     cols = [{"name": "id", "type": "id", "dense": True}]
@@ -47,7 +47,7 @@ def tables(draw, min_rows=1, max_rows=9, blanks=True, ragged=True, lead_blank=Fa
                     v = ""
                 elif k == 1:
                     v = " "
-            if draw(st.integers(0, 11)) == 0 and v != "":
+            if pad and draw(st.integers(0, 11)) == 0 and v != "":
                 v = draw(st.sampled_from([" " + v, v + " ", " " + v + " "]))
             row.append(v)
         if ragged and len(cols) > ndense and draw(st.integers(0, 4)) == 0:
